@@ -210,7 +210,7 @@ func pemDER(p string) []byte {
 
 func c18Run(c *Ctx) {
 	pki := newPKI()
-	for _, cfgName := range []string{"server-auth-only", "client-cert-required", "server-auth-only-certificate-from-callback", "client-cert-required-config-from-callback"} {
+	for _, cfgName := range []string{"server-auth-only", "client-cert-required", "server-auth-only-certificate-from-callback", "client-cert-required-config-from-callback", "client-cert-required-while-NewServer-was-given-another-config"} {
 		mtls := strings.HasPrefix(cfgName, "client-cert-required")
 		stc, ctc := pki.ServerOnly, pki.ClientPlain
 		if mtls {
@@ -224,8 +224,12 @@ func c18Run(c *Ctx) {
 			inner := pki.ServerMTLS
 			stc = &tls.Config{GetConfigForClient: func(*tls.ClientHelloInfo) (*tls.Config, error) { return inner, nil }}
 		}
+		var ctorTLS *tls.Config
+		if cfgName == "client-cert-required-while-NewServer-was-given-another-config" {
+			ctorTLS = pki.ServerOnly // Run is given the configuration that requires client certificates
+		}
 		rc := &Recorder{}
-		srv, err := startSrv(SrvCfg{TLS: stc}, func(m *gldap.Mux) { rc.RegisterAll(m, nil) })
+		srv, err := startSrv(SrvCfg{TLS: stc, CtorTLS: ctorTLS}, func(m *gldap.Mux) { rc.RegisterAll(m, nil) })
 		if err != nil {
 			c.Inconclusive("server start: " + err.Error())
 			return
